@@ -36,6 +36,85 @@ def evaluator(p, res, meta):
     return None
 
 
+def retry_program(rng, fam):
+    """a reference whose label is not defined yet when the first commit is attempted (that commit fails: C06), the label defined
+    afterwards, then commits that succeed. The property speaks about every successful commit: the reference designates the later definition"""
+    front = rng.choice(["asm", "asm", "vec"])
+    g = asmgen.Gen(rng, front, fam, max_ops=10, base=0)
+    g.header()
+    g.lines += ["nd", "nd"]
+    g.ndyn = 2
+    lines = g.lines
+    g.emit(g.code())
+    lines.append("gl 9")
+    g.defined_global.add(9)
+    lines.append("dl 1")
+    g.defined_dyn.add(1)
+
+    def healthy():
+        k = rng.below(3)
+        if k == 0:
+            g.ref_line("rg", 9, g.pick_shape())
+        elif k == 1:
+            g.ref_line("rd", 1, g.pick_shape())
+        else:
+            g.emit(g.code())
+    for _ in range(rng.below(3)):
+        healthy()
+    kind = rng.choice(["rg", "rf", "rd"])
+    name, fix = {"rg": (8, "gl 8"), "rf": (1, "ll 1"), "rd": (0, "dl 0")}[kind]
+    g.ref_line(kind, name, g.pick_shape())
+    for _ in range(rng.below(3)):
+        healthy()
+    lines.append("c")
+    if rng.chance(1, 2):
+        g.emit(g.code())
+    lines.append(fix)
+    for _ in range(rng.below(3)):
+        healthy()
+    g.emit(g.code())
+    if rng.chance(1, 2):
+        lines.append("c")
+    lines.append("fin")
+    return lines
+
+
+def retry_evaluator(p, res, meta):
+    fail = next((i for i, (req, a, _) in enumerate(res) if req == "c" and a.startswith("err")), None)
+    if fail is None or not res[fail][1].startswith("err Unknown"):
+        return None
+    if any(a.startswith("err") or a in ("panic", "dead", "bad-op", "skipped") for (_, a, _) in res[fail + 1:]):
+        return None         # the later commits did not succeed: nothing was produced
+    healthy = [req for i, (req, _, _) in enumerate(res) if i != fail]
+    try:
+        o = asmgen.Oracle(healthy).run()
+        if o.first_failing_commit() is not None:
+            return None
+        patches = o.patches(None)
+    except asmgen.Unsupported:
+        return None
+    fb = asmcheck.final_bytes(res)
+    if fb is None or len(fb) != len(o.image):
+        return None
+    emitted = bytes(o.image)
+    lost = {}
+    for (start, fmt, v, r) in patches:
+        size = asmcheck.fmt_size(fmt)
+        if r["i"] < fail and v is not None and fb[start:start + size] == emitted[start:start + size] and \
+                asmcheck.arch_decode(fmt, fb[start:start + size]) != asmcheck.expected_decode(fmt, v):
+            lost[start] = (r, asmcheck.arch_decode(fmt, fb[start:start + size]), asmcheck.expected_decode(fmt, v))
+    msg = asmcheck.check_image(fb, o, skip=lambda start, size: start in lost)
+    if msg:
+        return ({"kind": "reference" if "decodes" in msg else "non-field-byte"}, msg)
+    if lost:
+        start = min(lost)
+        r, got, want = lost[start]
+        return ({"kind": "unpatched-after-failed-commit"},
+                f"`{res[fail][0]}` failed with `{res[fail][1][:40]}`, the label was then defined and the later commit succeeded, but reference "
+                f"`{' '.join(o.lines[r['i']])}` (field at {start}) still holds its placeholder: decodes to {got}, designated target gives {want}")
+    return None
+
+
 def check(run):
     rng = SplitMix(run.seed)
     thorough = run.tier == "thorough"
@@ -69,13 +148,19 @@ def check(run):
         metas.append(None)
         nontrivial += 1
     stats = asmprops.process(run, progs, evaluator, metas, chunk=250)
+    # histories that continue after a failed commit: the label is defined afterwards and a later commit succeeds (own batch: a recorded
+    # finding must not use up the report limit of the main batch)
+    retries = [retry_program(rng, rng.choice(["x64", "x86", "a64", "rv"])) for _ in range(3000 if thorough else 300)]
+    rstats = asmprops.process(run, retries, retry_evaluator, None, chunk=100, label="retry history")
+    stats["retry_histories"] = rstats
+    stats["requests"] += rstats["requests"]
     # macro half (x86-64): a label as memory operand must be referenced exactly, whatever follows the displacement inside the instruction
     import x64lbl
     stats["x64_label_operands"] = x64lbl.sweep(run)
     # macro half, every backend: the user-supplied offset of a reference reaches the relocation call as written
     import lblofs
     stats["label_offsets"] = lblofs.sweep(run)
-    run.coverage["evaluations"] = len(progs)
+    run.coverage["evaluations"] = len(progs) + len(retries)
     run.coverage["distinct_nontrivial"] = nontrivial
     run.coverage["traces_validated_against_impl"] = stats["requests"]
     run.coverage["distribution"] = stats
